@@ -357,10 +357,14 @@ def ruleLatentDOW(ts: datetime, dow: Time) -> Time:
 
 @rule(predicate("isDOY"))
 def ruleLatentDOY(ts: datetime, doy: Time) -> Time:
-    dm = ts + relativedelta(month=doy.month, day=doy.day)
-    if dm < ts:
-        dm += relativedelta(years=1)
-    return Time(year=dm.year, month=dm.month, day=dm.day)
+    # next year (starting with the current one) in which this day exists
+    # (29.2.!) and is not in the past
+    for year in range(ts.year, ts.year + 9):
+        if doy.day <= monthrange(year, doy.month)[1]:
+            dm = ts.replace(year=year, month=doy.month, day=doy.day)
+            if dm >= ts:
+                return Time(year=dm.year, month=dm.month, day=dm.day)
+    return None
 
 
 @rule(predicate("isPOD"))
